@@ -25,7 +25,8 @@ RULE = ('Engine "probe": DAGs (1-7 nodes) of probing tasks - default filter_cont
         '24-80 independent tasks queued behind 1-3 workers. Engine '
         '"ctx-independence" (metamorphic): the same tasks (some of whose results embed the running task object itself) run under two different contexts into two stores must produce identical '
         'key sets, identical result files byte for byte and identical metadata.json modulo the two timing fields. Non-trivial = '
-        '>= 2 nodes with different filter parameters and backend != serial (probe), >= 2 tasks (ctx). Distinct = hash of spec.')
+        '>= 2 nodes with different filter parameters and backend != serial (probe), >= 2 tasks (ctx). Distinct = hash of spec. A third of the probe cases are forced re-executions '
+        '(bust_cache=True) over a store in which every cacheable task already has an entry.')
 ASSUMPTIONS = ['a parent-mutated module global observed inside run() distinguishes inherited memory (fork) from a fresh interpreter (spawn)']
 
 
